@@ -321,9 +321,10 @@ class Exec2(Exec):
             self._closure_index = {}
             for name, bs in self.bodies.items():
                 for b in bs:
-                    m = re.match(r"^_1: (&(?:mut )?)?(\{closure@[^}]*\})", b.args)
+                    m = re.match(r"^_1: (&(?:mut )?)?(\{(?:async )?closure@[^}]*\})", b.args)
                     if m:
-                        self._closure_index.setdefault(m.group(2), []).append((b, m.group(1) or ""))
+                        # an async closure is built as `{closure@..}` and called through `{async closure@..}`
+                        self._closure_index.setdefault(m.group(2).replace("{async closure@", "{closure@"), []).append((b, m.group(1) or ""))
         return self._closure_index
 
     def closure_body(self, src):
@@ -488,10 +489,13 @@ class Exec2(Exec):
             val = self.call(callee, vals, env)
             calls = calls + [(callee, vals, list(pc))]
             if isinstance(val, list):
-                for cond, v2 in val:
+                for item in val:
+                    cond, v2 = item[0], item[1]
                     if cond in ("false",) or self._neg(cond) in pc:
                         continue
                     e = dict(env)
+                    if len(item) > 2 and item[2]:
+                        e.update(item[2])       # a fork may carry its own bookkeeping state (e.g. the contents of a sequence)
                     if lhs is not None:
                         self.assign(e, lhs, v2)
                     self._walk(body, nxt, e, pc + ([] if cond == "true" or cond in pc else [cond]), calls, results, depth + 1)
